@@ -16,6 +16,7 @@ func init() { reg("C13", C13) }
 // it records the last address it received.
 type fakeMem struct {
 	id       int
+	size     uint32 // what Size() reports (0: 16 MiB): a device may be smaller than the window it is mapped over (mirrored) or larger
 	lastAddr uint32
 	reads    int
 	writes   int
@@ -44,8 +45,13 @@ func (f *fakeMem) Write(a uint32, v byte) {
 	}
 	f.written[a] = v
 }
-func (f *fakeMem) Shutdown()          {}
-func (f *fakeMem) Size() uint32       { return 1 << 24 }
+func (f *fakeMem) Shutdown() {}
+func (f *fakeMem) Size() uint32 {
+	if f.size == 0 {
+		return 1 << 24
+	}
+	return f.size
+}
 func (f *fakeMem) Clear()             {}
 func (f *fakeMem) Dump(uint32) []byte { return nil }
 
@@ -333,6 +339,10 @@ func C13(r *vf.Run) {
 				m.mem = memory.NewROM(m.data, start)
 			default:
 				m.fake = &fakeMem{id: ci*100 + mi}
+				if g.Intn(3) == 0 {
+					m.fake.size = []uint32{1, 16, 0x100, 0x2000, 0x8000, (end - start + 1) / 2, end - start + 1, end - start + 2}[g.Intn(8)]
+					cells["attach:device-size-differs-from-window"]++
+				}
 				m.mem = m.fake
 			}
 			mems = append(mems, m)
